@@ -507,12 +507,20 @@ func runScript(c c18Script, concurrent bool) [][]string {
 }
 
 var subC18B = harness.NewSub("c18-concurrent-script", func(c c18Script, _ harness.Dialect) error {
-	want := runScript(c, false)
+	// The concurrent runs come FIRST: lazily initialised package state (a cache filled on first
+	// use) is only racy while it is cold, and a sequential warm-up pass would hide it. The
+	// sequential reference is computed afterwards.
+	prev := runtime.GOMAXPROCS(0)
 	if c.Procs > 0 {
-		defer runtime.GOMAXPROCS(runtime.GOMAXPROCS(c.Procs))
+		runtime.GOMAXPROCS(c.Procs)
 	}
+	var gots [][][]string
 	for rep := 0; rep < 2; rep++ {
-		got := runScript(c, true)
+		gots = append(gots, runScript(c, true))
+	}
+	runtime.GOMAXPROCS(prev)
+	want := runScript(c, false)
+	for _, got := range gots {
 		for g := range want {
 			if len(got[g]) != len(want[g]) {
 				return fmt.Errorf("goroutine %d produced %d results concurrently, %d sequentially", g, len(got[g]), len(want[g]))
